@@ -473,7 +473,8 @@ def sap_cfgs(tier, kind):
     if kind == "osap":
         cfgs += [("max2", dict(B=8, S=4, Wn=8, bs=8, mm=2, MM=2)), ("win1", dict(B=8, S=2, Wn=1, bs=4, mm=2, MM=3))]
     if tier != "quick":
-        cfgs += [("blk1", dict(B=8, S=0, Wn=3, bs=1, mm=2)), ("mm4", dict(B=8, S=4, Wn=8, bs=8, mm=4))]
+        # BlockSize 1: one Parse per byte; the flags are fixed to 0 there (2^calls flag combinations otherwise)
+        cfgs += [("blk1", dict(B=8, S=0, Wn=3, bs=1, mm=2, flagsfix=0)), ("mm4", dict(B=8, S=4, Wn=8, bs=8, mm=4))]
     return cfgs
 
 
